@@ -4,7 +4,13 @@
 //! Block production, leader-side of the consensus protocol.
 
 use std::sync::Arc;
+#[cfg(not(feature = "verif-hooks"))]
 use std::time::{Duration, Instant};
+#[cfg(feature = "verif-hooks")]
+use std::time::Duration;
+
+#[cfg(feature = "verif-hooks")]
+use tokio::time::Instant;
 
 use anyhow::Result;
 use either::Either;
